@@ -157,6 +157,31 @@ theorem run_bg (st : St α) (bg : List (Msg α))
     unfold route
     by_cases hok : m.ok <;> simp [hok, List.append_assoc]
 
+/-- a POST completing, in any way, after the request's future was resolved by the event `m` -/
+theorem step_post_resolved (k : Str) (m : Msg α) (X : List (Out α)) (p : Post α)
+    (hm : m.ok = true)
+    (hp : match p with | .ok200 (some b) => b.ok = true ∧ b.key = some k | _ => True) :
+    (step { phase := .posting, key := k, inDict := false, fut := Fut.resolved m, out := X } (.post p)).out
+        = X ++ [postTerminal k m p]
+    ∧ (step { phase := .posting, key := k, inDict := false, fut := Fut.resolved m, out := X } (.post p)).phase = .idle
+    ∧ (step { phase := .posting, key := k, inDict := false, fut := Fut.resolved m, out := X } (.post p)).inDict = false
+    ∧ (step { phase := .posting, key := k, inDict := false, fut := Fut.resolved m, out := X } (.post p)).key = k := by
+  cases p with
+  | ok200 b =>
+    cases b with
+    | none => simp [step, emit, finish, postTerminal]
+    | some b => simp [step, route, finish, postTerminal, hp.1]
+  | accepted => simp [step, route, finish, postTerminal, hm]
+  | other b =>
+    cases b with
+    | none => simp [step, emit, finish, postTerminal]
+    | some b =>
+      by_cases ha : answers k b = true
+      · have hok : b.ok = true := by simp [answers] at ha; exact ha.1
+        simp [step, route, finish, postTerminal, ha, hok]
+      · simp [step, emit, finish, postTerminal, ha]
+  | exc => simp [step, emit, finish, postTerminal]
+
 /-- The outcome of one request, for every mode and both orders of the race: the read stream
 grows by the background messages (in order), and by exactly the terminal message, and the machine
 is idle again with an empty pending table. -/
@@ -261,6 +286,18 @@ theorem run_sched (st : St α) (k : Str) (mode : Mode α) (bg0 bg1 bg2 : List (M
       simp [step, emit, finish]
     rw [e1, run_bg _ _ (Or.inl rfl)]
     simp [reqOut, mid, terminal, List.append_assoc]
+  | evThenPost m p =>
+    obtain ⟨⟨hok, hkey⟩, hp⟩ := hwf
+    simp only [run_append, run_cons, run_nil]
+    have e1 : step { phase := .posting, key := k, inDict := true, fut := Fut.waiting, out := st.out ++ oks bg0 }
+        (.event m) =
+        { phase := .posting, key := k, inDict := false, fut := .resolved m, out := st.out ++ oks bg0 } := by
+      simp [step, hkey]
+    rw [e1, run_bg _ bg1 (Or.inl rfl)]
+    obtain ⟨h1, h2, h3, _⟩ := step_post_resolved k m (st.out ++ oks bg0 ++ oks bg1) p hok hp
+    rw [run_bg _ bg2 (Or.inl h3)]
+    simp only [h1, h2, h3]
+    simp [reqOut, mid, terminal, List.append_assoc]
 
 theorem terminal_key (k : Str) (mode : Mode α) (hwf : mode.wf k) : (terminal k mode).key = some k := by
   cases mode with
@@ -275,6 +312,23 @@ theorem terminal_key (k : Str) (mode : Mode α) (hwf : mode.wf k) : (terminal k 
       · have : b.key = some k := by simp [answers] at ha; exact ha.2
         simp [terminal, ha, Out.key, this]
       · simp [terminal, ha, Out.key]
+  | evThenPost m p =>
+    obtain ⟨⟨_, hkey⟩, hp⟩ := hwf
+    cases p with
+    | ok200 b =>
+      cases b with
+      | none => rfl
+      | some b => exact hp.2
+    | accepted => exact hkey
+    | other b =>
+      cases b with
+      | none => rfl
+      | some b =>
+        by_cases ha : answers k b = true
+        · have : b.key = some k := by simp [answers] at ha; exact ha.2
+          simp [terminal, postTerminal, ha, Out.key, this]
+        · simp [terminal, postTerminal, ha, Out.key]
+    | exc => rfl
   | _ => rfl
 
 theorem filter_oks_foreign (k : Str) (ms : List (Msg α)) (h : ∀ m ∈ ms, m.key ≠ some k) :
